@@ -33,6 +33,8 @@ REQUIRED = [
     ('a1.witness.', {'hash'}, 'decommitted values and authentication nodes enter the Merkle hashes'),
 ]
 
+THOROUGH_MAIN_CONFIGS = ['b248s6', 'nostd']
+
 
 def run(ctx, rep):
     db = ctx.main
